@@ -67,6 +67,9 @@ THEOREMS = [
     "IrVerif.Device.C19_inline_pass_axes",
     "IrVerif.Device.C19_step_any",
     "IrVerif.Device.C19_history_any",
+    "IrVerif.Device.C19_step_weak",
+    "IrVerif.Device.C19_weak_checker",
+    "IrVerif.Device.C19_history_weak",
 ]
 ASSUMPTIONS = [
     "graphs nest (a node may own subgraphs - GRAPH and GRAPHS attributes - whose nodes use outer-scope values) and "
